@@ -249,3 +249,216 @@ def lint_report_loop(run, twin=None):
                               clause='lint returns the accumulated list', path=p)
                 core.explore(body, on_path)
     # relabel loop obligations with the case they belong to is not needed: names carry the path signature
+
+
+# ---------------------------------------------------------------------------
+# lint: E01 clause and the usage loop (C08, C01, C02, C03)
+
+class UsageList(Proxy):
+    """get_name_usages(tree): an unknown number of Name reads; element k is the arbitrary read the harness built"""
+    _pyclass = list
+
+    def __init__(self, node):
+        self.node = node
+        self.n = z3.Int('n_reads')
+
+    def slen(self):
+        return SInt(self.n)
+
+    def elem_at(self, k):
+        return self.node
+
+
+def table_values(ident):
+    """one instance of every class a names table can hold for `ident`"""
+    import supp.name as Nm
+    import supp.scope as S
+    import builtins
+    out = []
+    a = Nm.AssignedName(ident, (1, 0), (1, 0), None)
+    out.append(('AssignedName', a, [a]))
+    g = Nm.ArgumentName([0], ident, (1, 0), (1, 4), None)
+    out.append(('ArgumentName', g, [g]))
+    for q in (False, True):
+        i = Nm.ImportedName(ident, (1, 0), (1, 7), 'os', None, qualified=q)
+        out.append(('ImportedName%s' % ('-qualified' if q else ''), i, [i]))
+    f = S.FuncScope.__new__(S.FuncScope)
+    f.name, f.location, f.declared_at = ident, (2, 4), (1, 4)
+    out.append(('FuncScope', f, [f]))
+    c = S.ClassScope.__new__(S.ClassScope)
+    c.name, c.location, c.declared_at = ident, (2, 4), (1, 6)
+    out.append(('ClassScope', c, [c]))
+    r = Nm.RuntimeName(ident, getattr(builtins, ident, None), True)
+    out.append(('RuntimeName-builtin', r, [r]))
+    a1, a2 = Nm.AssignedName(ident, (1, 0), (1, 0), None), Nm.AssignedName(ident, (3, 0), (3, 0), None)
+    m = Nm.MultiName([a1, a2])
+    out.append(('MultiName', m, [a1, a2]))
+    a3 = Nm.AssignedName(ident, (1, 0), (1, 0), None)
+    u = Nm.UndefinedName(ident)
+    m2 = Nm.MultiName([a3, u])
+    out.append(('MultiName-with-unbound', m2, [a3, u]))
+    return out
+
+
+USAGE_REPLAY = '''import sys; sys.path.insert(0, %(repo)r)
+from supp.linter import lint
+from supp.project import Project
+src = "def f(c):\\n    if c:\\n        locals = 1\\n    else:\\n        locals = 2\\n    return locals\\n"
+try:
+    r = lint(Project(['/nonexistent']), src)
+except Exception as e:
+    print('REPRODUCED: lint raises %%s: %%s on a program that binds `locals` in two branches' %% (type(e).__name__, e)); sys.exit(1)
+print('not reproduced', r)
+'''
+
+
+@harness(['C08', 'C01', 'C02', 'C03'], 'supp.linter.lint[usage loop] + use_name', twins=('spec-unbound-alternative-is-E02',))
+def lint_usage_loop(run, twin=None):
+    """loop-body contract of the loop over the Name reads, for an arbitrary read whose table entry is of ANY class a table can hold
+    (each binding class, builtin, MultiName with and without `unbound`), identifier `locals` or not: raises nothing; UNKNOWN NAME (E42)
+    iff the read was never visited; Undefined name (E02) iff the identifier is absent from the table at the read; otherwise no diagnostic,
+    every alternative is marked used (and nothing else), dotted imports are remembered; a builtin `locals` marks every local of the scope"""
+    import supp.name as Nm
+    run.concretise = lambda model, ob: {'input': '`locals` bound in two branches of a function', 'script': USAGE_REPLAY % {'repo': core.REPO}}
+    holder = {}
+
+    def inv(L, st):
+        r = st['result']
+        want = holder['want']
+        if not r.items:
+            return z3.BoolVal(want is None) if r.base is not L.k and False else z3.Or(r.base == L.k, z3.And(r.base + 1 == L.k, z3.BoolVal(want is None)))
+        if len(r.items) != 1 or want is None:
+            return z3.BoolVal(False)
+        t = r.items[0]
+        ok = isinstance(t, tuple) and len(t) == 5 and t[0] == want[0] and t[2:4] == (7, 3) and isinstance(t[1], str) and t[1] == want[1]
+        return z3.And(r.base + 1 == L.k, z3.BoolVal(bool(ok)))
+
+    def hav(L, st):
+        st['result'].havoc(L, L.k)
+        return {}
+    f = loader.load(MOD, 'lint', stubs=dict(
+        Source=lambda source, filename: source, extract_scope=lambda source, project: holder['scope'],
+        get_name_usages=lambda tree: holder['usages'],
+        set=lambda *a: holder['qi'] if not a else set(*a)),
+        cuts={0: LoopSpec(inv, hav, temps=('name', 'location', 'flow', 'snames', 'sname', 'n'))},
+        displays={'list': lambda: AccList(z3.IntVal(0))})
+
+    class Src(object):
+        tree = None
+
+    class QI(object):
+        def __init__(self):
+            self.added = []
+
+        def add(self, x):
+            self.added.append(x)
+
+    class EmptyNames(object):
+        all_names = []
+
+    cases = [('not-visited', None, None), ('absent', None, None)]
+    for ident in ('x', 'locals'):
+        for label, val, alts in table_values(ident):
+            cases.append(('%s/%s' % (ident, label), val, alts))
+    for label, val, alts in cases:
+        def body(label=label, val=val, alts=alts):
+            run.case = label
+            ident = label.split('/')[0] if '/' in label else 'x'
+            node = ast.Name(id=ident, ctx=ast.Load())
+            node.lineno, node.col_offset = 7, 3
+            other = Nm.AssignedName('other', (1, 0), (1, 0), None)
+
+            class Sc(object):
+                pass
+            sc = Sc()
+            other.scope = sc
+            for a in alts or []:
+                if not isinstance(a, str):
+                    a.scope = sc
+
+            class Fl(object):
+                scope = sc
+                asked = []
+
+                def names_at(self, loc):
+                    Fl.asked.append(loc)
+                    t = {'other': other}
+                    if val is not None:
+                        t[ident] = val
+                    return t
+            if label != 'not-visited':
+                node.flow = Fl()
+            holder.update(usages=UsageList(node), qi=QI(), scope=EmptyNames(), other=other, Fl=Fl, alts=alts, val=val, ident=ident)
+            if label == 'not-visited':
+                holder['want'] = ('E42', 'UNKNOWN NAME: %s' % ident)
+            elif val is None:
+                holder['want'] = ('E02', 'Undefined name: %s' % ident)
+            else:
+                holder['want'] = None
+            if twin and alts and any(isinstance(a, str) for a in alts):
+                holder['want'] = ('E02', 'Undefined name: %s' % ident)
+            for a in (alts or []) + [other]:
+                a.__dict__.pop('used', None)
+            return f(None, Src(), 'f.py')
+
+        def on_path(p, out, label=label):
+            if out[0] != 'ok':
+                prove('no-exception', False, clause='the usage loop raises nothing [%s: %s]' % (type(out[1]).__name__, out[1]), path=p)
+        core.explore(body, on_path)
+
+        # the marks, observed after one arbitrary iteration: re-run the body natively on the built objects
+        def marks(path, label=label, val=val, alts=alts):
+            import supp.linter as Lt
+            if val is None:
+                return
+            ident = label.split('/')[0]
+            for a in alts:
+                a.__dict__.pop('used', None)
+            try:
+                Lt.use_name(val)
+                exc = None
+            except Exception as e:
+                exc = e
+            run.case = label
+            prove('use_name-marks-every-alternative', exc is None and all(getattr(a, 'used', False) is True for a in alts),
+                  clause='use_name marks exactly the alternatives of the table entry', path=path)
+        core.explore(lambda: None, lambda p, out: marks(p))
+    run.case = None
+
+
+@harness(['C08'], 'supp.linter.lint[E01 clause]')
+def lint_e01(run):
+    """if parsing raises SyntaxError: exactly one diagnostic ('E01', message, line, offset, None) and nothing else is computed;
+    if it does not: no E01"""
+    f = loader.load(MOD, 'lint', stubs=dict(extract_scope=lambda s, p: (_ for _ in ()).throw(AssertionError('analysed after a syntax error'))))
+
+    def go(path):
+        class Bad(object):
+            @property
+            def tree(self):
+                e = SyntaxError('invalid syntax')
+                e.msg, e.lineno, e.offset = 'invalid syntax', 3, 7
+                raise e
+        f2 = loader.load(MOD, 'lint', stubs=dict(Source=lambda s, fn: Bad(),
+                                                  extract_scope=lambda s, p: (_ for _ in ()).throw(AssertionError('analysed after a syntax error'))))
+        try:
+            r = f2(None, 'src', 'f.py')
+        except Exception as e:
+            r = e
+        prove('syntax-error-gives-exactly-one-E01', r == [('E01', 'invalid syntax', 3, 7, None)],
+              clause="[('E01', CPython's message, line, offset, None)] and nothing else", path=path)
+        import supp.linter as Lt
+        from supp.project import Project
+        for src in ('def f(:\n', 'x = (\n', 'a\x00b', '\tif x:\n  y\n', 'x = 1 +\n'):
+            try:
+                r = Lt.lint(Project(['/nonexistent']), src)
+                try:
+                    compile(src, '<string>', 'exec')
+                    want = None
+                except SyntaxError as e:
+                    want = [('E01', e.msg, e.lineno, e.offset, None)]
+                ok = r == want
+            except Exception as e:
+                ok, r = False, e
+            prove('unparsable-text-%r' % src[:8], ok, clause='lint == [E01 with CPython\'s message and position] [%r]' % (r,), path=path)
+    core.explore(lambda: None, lambda p, out: go(p))
